@@ -137,29 +137,33 @@ struct C12World: World {
 // ================================================================== C14 count-min
 template<typename W> struct CmExec {
   typedef ds::count_min_sketch<W, talloc<W>> S;
+  // weights are multiples of 1/4 for the floating-point weight type (sums stay exact) and integers otherwise; kept in quarters
   struct Node { std::unique_ptr<S> sk; std::unique_ptr<S> shadow; std::map<std::string, u64> truth; u64 total = 0; std::vector<std::pair<std::string, u64>> log; };
+  static const bool FRACTIONAL = std::is_floating_point<W>::value;
+  static W wq(u64 quarters) { return FRACTIONAL ? static_cast<W>(static_cast<double>(quarters) / 4.0) : static_cast<W>(quarters); }
+  static double dq(u64 quarters) { return FRACTIONAL ? static_cast<double>(quarters) / 4.0 : static_cast<double>(quarters); }
   Ctx& ctx; const Plan& p; std::string fam; uint8_t nh; uint32_t nb; u64 seed;
   CmExec(Ctx& c, const Plan& pl, const char* f): ctx(c), p(pl), fam(f) { static const int hs[] = { 1, 2, 3, 5, 8, 255 }; static const int bs[] = { 3, 4, 7, 16, 64, 1000 }; static const u64 sd[3] = { ds::DEFAULT_SEED, 12345, 0x9e3779b97f4a7c15ULL };
     nh = static_cast<uint8_t>(hs[p.cfg[1] % 6]); nb = static_cast<uint32_t>(bs[p.cfg[2] % 6]); seed = sd[p.cfg[3] % 3]; }
   std::string fp(const char* cls) const { return "C14|" + fam + "|" + cls; }
   S make() const { return S(nh, nb, seed, talloc<W>(1)); }
   static std::string key(i64 x, bool str) { if (str) return "s" + std::to_string(x); return std::string(reinterpret_cast<const char*>(&x), 8); }
-  static void apply(S& s, const std::string& k, u64 w) { if (k.size() == 8 && k[0] != 's') { int64_t v; std::memcpy(&v, k.data(), 8); s.update(v, static_cast<W>(w)); } else s.update(k, static_cast<W>(w)); }
+  static void apply(S& s, const std::string& k, u64 w) { if (k.size() == 8 && k[0] != 's') { int64_t v; std::memcpy(&v, k.data(), 8); s.update(v, wq(w)); } else s.update(k, wq(w)); }
   static W est(const S& s, const std::string& k) { if (k.size() == 8 && k[0] != 's') { int64_t v; std::memcpy(&v, k.data(), 8); return s.get_estimate(v); } return s.get_estimate(k); }
   static W lbd(const S& s, const std::string& k) { if (k.size() == 8 && k[0] != 's') { int64_t v; std::memcpy(&v, k.data(), 8); return s.get_lower_bound(v); } return s.get_lower_bound(k); }
   static W ubd(const S& s, const std::string& k) { if (k.size() == 8 && k[0] != 's') { int64_t v; std::memcpy(&v, k.data(), 8); return s.get_upper_bound(v); } return s.get_upper_bound(k); }
   void check(Node& n, const char* after, bool cells) {
     const S& s = *n.sk; const std::string w = std::string(" after ") + after;
-    ctx.require(static_cast<double>(s.get_total_weight()) == static_cast<double>(n.total), fp("total-weight").c_str(), std::to_string(static_cast<double>(s.get_total_weight())) + " vs " + std::to_string(n.total) + w);
+    ctx.require(static_cast<double>(s.get_total_weight()) == dq(n.total), fp("total-weight").c_str(), std::to_string(static_cast<double>(s.get_total_weight())) + " vs " + std::to_string(dq(n.total)) + w);
     size_t i = 0;
     for (auto& kv : n.truth) { if (n.truth.size() > 300 && (i++ % (n.truth.size() / 300 + 1))) continue;
       const double e = static_cast<double>(est(s, kv.first)), lb = static_cast<double>(lbd(s, kv.first)), ub = static_cast<double>(ubd(s, kv.first));
-      if (e < static_cast<double>(kv.second)) ctx.fail(fp("estimate-below-true-weight"), "estimate " + std::to_string(e) + " true " + std::to_string(kv.second) + w);
-      ctx.require(e <= static_cast<double>(n.total), fp("estimate-above-total-weight").c_str(), w);
+      if (e < dq(kv.second)) ctx.fail(fp("estimate-below-true-weight"), "estimate " + std::to_string(e) + " true " + std::to_string(dq(kv.second)) + w);
+      ctx.require(e <= dq(n.total), fp("estimate-above-total-weight").c_str(), w);
       ctx.require(lb <= e && e <= ub, fp("bounds-order").c_str(), w);
       ctx.require(e == static_cast<double>(est(*n.shadow, kv.first)), fp("estimate-differs-from-single-stream-sketch").c_str(), w);
     }
-    ctx.require(static_cast<double>(est(s, key(987654321, false))) <= static_cast<double>(n.total), fp("estimate-above-total-weight").c_str(), w);
+    ctx.require(static_cast<double>(est(s, key(987654321, false))) <= dq(n.total), fp("estimate-above-total-weight").c_str(), w);
     if (cells) {   // linearity: cell by cell equal to one sketch fed the concatenated streams
       auto a = s.begin(); auto b = n.shadow->begin(); size_t c = 0;
       for (; a != s.end() && b != n.shadow->end(); ++a, ++b, ++c) if (*a != *b) ctx.fail(fp("merged-cells-differ-from-single-stream-sketch"), "cell " + std::to_string(c) + w);
@@ -174,7 +178,7 @@ template<typename W> struct CmExec {
       Node& n = nodes[static_cast<size_t>(s.a) % nodes.size()]; bool cells = false;
       switch (s.kind) {
         case A_BATCH: { const i64 count = std::min<i64>(s.c / 64, 1500), pat = s.c % 64;
-          for (i64 j = 0; j < count; j++) { i64 x = fam::feed_value(s.b, j, count, pat & 7); u64 wt = (pat & 8) ? static_cast<u64>(1 + (static_cast<u64>(x) % 5)) : 1; std::string k = key(x, (pat & 16) != 0);
+          for (i64 j = 0; j < count; j++) { i64 x = fam::feed_value(s.b, j, count, pat & 7); u64 wt = (pat & 8) ? static_cast<u64>(1 + (static_cast<u64>(x) % 5)) : (FRACTIONAL ? 3 : 1); std::string k = key(x, (pat & 16) != 0);   // 3 quarters = 0.75 for floating-point weights
             apply(*n.sk, k, wt); apply(*n.shadow, k, wt); n.truth[k] += wt; n.total += wt; if (n.log.size() < 20000) n.log.push_back(std::make_pair(k, wt)); }
           break; }
         case A_MERGE: { Node& src = nodes[static_cast<size_t>(s.b) % nodes.size()];
@@ -186,7 +190,11 @@ template<typename W> struct CmExec {
         case A_REFUSED: {
           S other1(static_cast<uint8_t>(nh == 255 ? 3 : nh + 1), nb, seed, talloc<W>(1)), other2(nh, nb + 1, seed, talloc<W>(1)), other3(nh, nb, seed + 1, talloc<W>(1));
           int t = 0; try { n.sk->merge(other1); } catch (const std::invalid_argument&) { t++; } try { n.sk->merge(other2); } catch (const std::invalid_argument&) { t++; } try { n.sk->merge(other3); } catch (const std::invalid_argument&) { t++; }
-          ctx.require(t == 3, fp("incompatible-merge-not-refused").c_str(), std::to_string(t)); cells = true; ctx.fault("refused_op"); break; }
+          ctx.require(t == 3, fp("incompatible-merge-not-refused").c_str(), std::to_string(t));
+          // same seed and the same number of cells, different shape
+          if (nb % 2 == 0 && nb / 2 >= 3 && nh * 2 <= 255) { S other4(static_cast<uint8_t>(nh * 2), nb / 2, seed, talloc<W>(1)); other4.update(static_cast<int64_t>(5), wq(4)); bool r4 = false; try { n.sk->merge(other4); } catch (const std::invalid_argument&) { r4 = true; }
+            ctx.require(r4, fp("merge-of-different-shape-with-equal-cell-count-not-refused").c_str(), std::to_string(nh) + "x" + std::to_string(nb) + " accepted " + std::to_string(nh * 2) + "x" + std::to_string(nb / 2)); ctx.probe("transposed_shape_refusal"); }
+          cells = true; ctx.fault("refused_op"); break; }
         case A_COPY: { Node& d = nodes[static_cast<size_t>(s.b) % nodes.size()]; if (&d != &n) { d.sk.reset(new S(*n.sk)); d.shadow.reset(new S(*n.shadow)); d.truth = n.truth; d.total = n.total; d.log = n.log; } break; }
         default: break;
       }
@@ -450,6 +458,34 @@ struct C18World: World {
   }
 };
 
+struct C18StatWorld: World {
+  typedef ds::ebpps_sketch<int64_t, talloc<int64_t>> S;
+  const char* name() const override { return "c18s"; }
+  const char* step_name(int) const override { return "monte_carlo"; }
+  std::string family_of(const Plan&) const override { return "ebpps<i64>|inclusion"; }
+  Plan generate(u64 run_seed, int tier) override { Plan p; p.run_seed = run_seed; Rng r(run_seed, "cfg"); static const int ks[] = { 1, 2, 3, 4, 5, 6 };
+    p.cfg = { r.pick(ks), r.range(3, 14), static_cast<i64>(r.below(8)), static_cast<i64>(r.below(1000)), tier ? 40000 : 20000 }; Step s; s.kind = 1; p.steps.push_back(s); return p; }
+  void execute(const Plan& p, Ctx& ctx) override {
+    alloc_state().reset_counters(); alloc_state().budget = static_cast<size_t>(1) << 30;
+    const uint32_t k = static_cast<uint32_t>(p.cfg[0]); const int n = static_cast<int>(p.cfg[1]); const i64 trials = p.cfg[4];
+    std::vector<double> w(static_cast<size_t>(n)); double W = 0, wmax = 0; for (int i = 0; i < n; i++) { w[static_cast<size_t>(i)] = vo_weight(p.cfg[3] + i * 7, p.cfg[2]); if (w[static_cast<size_t>(i)] > 64) w[static_cast<size_t>(i)] = 64; W += w[static_cast<size_t>(i)]; wmax = std::max(wmax, w[static_cast<size_t>(i)]); }
+    std::vector<u64> hits(static_cast<size_t>(n), 0);
+    ctx.begin_step(0, 1);
+    for (i64 t = 0; t < trials; t++) {
+      SimRandom rnd(mix(p.run_seed, static_cast<u64>(t))); RandomScope rs(rnd);
+      S s(k, talloc<int64_t>(1)); for (int i = 0; i < n; i++) s.update(static_cast<int64_t>(i), w[static_cast<size_t>(i)]);
+      for (int64_t id : s.get_result()) if (id >= 0 && id < n) hits[static_cast<size_t>(id)]++;
+    }
+    const double rho = std::min(1.0 / wmax, static_cast<double>(k) / W);
+    for (int i = 0; i < n; i++) { const double pi = std::min(1.0, w[static_cast<size_t>(i)] * rho), ph = static_cast<double>(hits[static_cast<size_t>(i)]) / static_cast<double>(trials);
+      // Bernstein's inequality (rigorous for every pi, also the tiny ones): P(|hits - T*pi| > t) <= 2 exp(-t^2 / (2 (T*v + t/3))) <= 1e-13 for this t
+      const double L = 30.6, Tv = static_cast<double>(trials) * pi * (1 - pi), tb = L / 3 + std::sqrt(L * L / 9 + 2 * Tv * L); const double sigma = tb / static_cast<double>(trials) / 6;
+      if (std::fabs(ph - pi) > 6 * sigma + 1e-9) ctx.fail("C18|inclusion-probability-not-proportional-to-weight", "item " + std::to_string(i) + " weight " + hexd(w[static_cast<size_t>(i)]) + ": included in " + std::to_string(ph) + " of draws, expected " + std::to_string(pi) + " (k=" + std::to_string(k) + ", " + std::to_string(n) + " items, " + std::to_string(trials) + " draw sequences, allowed deviation " + std::to_string(6 * sigma) + " at 1e-13)");
+      ctx.check(); }
+    ctx.nontrivial = true; ctx.probe("monte_carlo_streams"); ctx.probe("draw_sequences", static_cast<u64>(trials)); ctx.t(static_cast<u64>(hits[0])); ctx.t(static_cast<u64>(hits[static_cast<size_t>(n - 1)]));
+  }
+};
+
 // ================================================================== C20 density
 template<typename T> struct gauss { template<typename V1, typename V2> T operator()(const V1& a, const V2& b) const { double acc = 0; for (size_t i = 0; i < a.size(); i++) { double d = static_cast<double>(a[i]) - static_cast<double>(b[i]); acc += d * d; } return static_cast<T>(std::exp(-acc)); } };
 template<typename T> struct laplace { template<typename V1, typename V2> T operator()(const V1& a, const V2& b) const { double acc = 0; for (size_t i = 0; i < a.size(); i++) acc += std::fabs(static_cast<double>(a[i]) - static_cast<double>(b[i])); return static_cast<T>(1.0 / (1.0 + acc)); } };
@@ -524,7 +560,7 @@ struct C20World: World {
   }
 };
 
-struct Init { Init() { static C12World a; static C14World b; static C17World c; static C16World d; static C18World e; static C20World f; for (World* w : std::vector<World*>{ &a, &b, &c, &d, &e, &f }) registry().push_back(w); } } init_;
+struct Init { Init() { static C12World a; static C14World b; static C17World c; static C16World d; static C18World e; static C20World f; static C18StatWorld g; for (World* w : std::vector<World*>{ &a, &b, &c, &d, &e, &f, &g }) registry().push_back(w); } } init_;
 } // namespace
 
 int main(int argc, char** argv) { sim::selftest_hashes(); return sim::sim_main(argc, argv); }
